@@ -778,6 +778,17 @@ func (engine *Engine) ServeHTTP(c context.Context, ctx *app.RequestContext) {
 	if engine.options.UseRawPath {
 		rPath = string(ctx.Request.URI().PathOriginal())
 		unescape = engine.options.UnescapePathValues
+		// The raw path is routed on as it came: nothing resolves its dot segments, and CleanPath
+		// (RemoveExtraSlash) does not see those written as %2e or put behind %2f. A request whose
+		// decoded path would leave the directory it has entered ("/static/../admin",
+		// "/static/%2e%2e/admin") must not reach the route of that directory with a parameter
+		// value that climbs out of it: refuse it, URI.Path() is what resolves such a target.
+		if rawPathHasDotSegment(rPath) {
+			ctx.SetHandlers(engine.Handlers)
+			ctx.SetConnectionClose()
+			serveError(c, ctx, consts.StatusBadRequest, default400Body)
+			return
+		}
 	}
 
 	if engine.options.RemoveExtraSlash {
@@ -840,6 +851,38 @@ func (engine *Engine) ServeHTTP(c context.Context, ctx *app.RequestContext) {
 	}
 	ctx.SetHandlers(engine.allNoRoute)
 	serveError(c, ctx, consts.StatusNotFound, default404Body)
+}
+
+// rawPathHasDotSegment reports whether the raw path p, percent-decoded once the way URI.Path()
+// decodes it (an incomplete or non-hex escape stays as it is), contains a ".." segment or a "."
+// segment that is not the last one.
+func rawPathHasDotSegment(p string) bool {
+	dots, other := 0, false // the current segment consists of that many '.' / has another byte
+	for i := 0; i <= len(p); i++ {
+		c := byte('/') // the end of the path ends the last segment
+		if i < len(p) {
+			c = p[i]
+			if c == '%' && i+2 < len(p) {
+				x1, x2 := bytesconv.Hex2intTable[p[i+1]], bytesconv.Hex2intTable[p[i+2]]
+				if x1 != 16 && x2 != 16 {
+					c = x1<<4 | x2
+					i += 2
+				}
+			}
+		}
+		switch {
+		case c == '/':
+			if !other && (dots == 2 || dots == 1 && i < len(p)) {
+				return true
+			}
+			dots, other = 0, false
+		case c == '.':
+			dots++
+		default:
+			other = true
+		}
+	}
+	return false
 }
 
 func (engine *Engine) allocateContext() *app.RequestContext {
